@@ -773,6 +773,11 @@ def enum_story_messages(sids, ro_id='RO1', max_sources=3, mid=2000, unknown='ZZ-
         body[1].tag = 'storyItem'
         yield 'roStorySend', env(B.story_send(ro_id, t, head=[T('storySlug', 'resent')], body=body))
     yield 'EAStoryInsert', env(B.ea_story_insert(ro_id, None, new2, with_target=False))
+    for t in ('', None, unknown):
+        # no usable reference, but the carried story has the ID of an existing one
+        for ex in list(sids)[:2]:
+            yield 'roStoryReplace', env(B.story_replace(ro_id, t, [plain_story(ex, ['J1'])]))
+            yield 'EAStoryReplace', env(B.ea_story_replace(ro_id, t, [plain_story(ex, ['J1'])]))
     # duplicates inside inserts: existing story at each position of the payload
     for t in list(sids) + ['']:
         for d in sids[:2]:
@@ -824,6 +829,12 @@ def enum_item_messages(sid, iids, ro_id='RO1', max_sources=3, mid=2000,
                 yield 'roItemReplace', env(B.item_replace(ro_id, s, r, same))
                 yield 'EAItemReplace', env(B.ea_item_replace(ro_id, s, r, same))
         yield 'roItemInsert', env(B.item_insert(ro_id, s, None, new2))
+        for r in ('', None, unknown):
+            # no usable reference, but the carried item has the ID of an existing one
+            for ex in list(iids)[:2]:
+                again = [B.mk_item(ex, slug='same id, no reference')]
+                yield 'roItemReplace', env(B.item_replace(ro_id, s, r, again))
+                yield 'EAItemReplace', env(B.ea_item_replace(ro_id, s, r, again))
         pool = list(iids) + [unknown]
         yield 'roItemMoveMultiple', env(B.item_move_multiple(ro_id, s, ['']))
         for srcs in ordered_tuples(pool, max_sources):
